@@ -203,6 +203,7 @@ fn run_scenario(rt: &Arc<tokio::runtime::Runtime>, id: &str, sc: &Scn) -> String
     let ctx = Ctx::new();
     let server = start(rt, &ctx, sc.mode);
     let addr = server.local_addr();
+    let own_inode = listen_inode(addr);
     let mut reqs: Vec<(u32, u32, String)> = Vec::new();
     let mut late = 0usize;
     let mut c = 0u32;
@@ -410,7 +411,13 @@ fn run_scenario(rt: &Arc<tokio::runtime::Runtime>, id: &str, sc: &Scn) -> String
         // shutdown phase: retry; only a listener that stays mute for the whole
         // retry period is reported as "still accepting".
         let mut verdict = Ev::ConnectAccepted;
+        // first of all: this server's own listening socket (identified by its inode when the
+        // scenario began) must be gone, before any probe connects to the port
+        let own_listener_open = listener_still_open(addr, own_inode, Duration::from_millis(1200));
         for _attempt in 0..30 {
+            if own_listener_open {
+                break;
+            }
             match TcpStream::connect_timeout(&addr, Duration::from_secs(5)) {
                 Err(_) => {
                     verdict = Ev::ConnectRefused;
@@ -491,6 +498,7 @@ fn run_tls_scenario(
     let ctx = Ctx::new();
     let server = start_opts(rt, &ctx, mode, Some(kit.server.clone()));
     let addr = server.local_addr();
+    let own_inode = listen_inode(addr);
     let mut reqs: Vec<(u32, u32, String)> = Vec::new();
     let mut late = 0usize;
     let mut c = 0u32;
@@ -664,7 +672,11 @@ fn run_tls_scenario(
         // the port: a refused connect, or a listener that is not this server (it cannot
         // complete a TLS handshake with our kit and answer /id with this server's id)
         let mut verdict = Ev::ConnectAccepted;
+        let own_listener_open = listener_still_open(addr, own_inode, Duration::from_millis(1200));
         for _attempt in 0..30 {
+            if own_listener_open {
+                break;
+            }
             match TcpStream::connect_timeout(&addr, Duration::from_secs(5)) {
                 Err(_) => {
                     verdict = Ev::ConnectRefused;
